@@ -97,6 +97,10 @@ pub fn type_tags(r: &Ref, ty: &str) -> BTreeSet<String> {
             if sized_above && subbyte {
                 tags.insert("child.bitfields-under-sized-payload".into());
             }
+            // a payload of its own next to other own fields, under an ancestor whose payload has a size field
+            if sized_above && fl.last().fields.iter().any(|f| matches!(f.k, FK::Payload { .. })) && fl.last().fields.iter().any(|f| !matches!(f.k, FK::Payload { .. }) && f.bits().map(|w| w > 0).unwrap_or(true)) {
+                tags.insert("child.own-payload-under-sized-payload".into());
+            }
             // an ancestor declares fields behind its payload / body
             let trailing = fl.levels[..fl.levels.len() - 1].iter().any(|l| {
                 let pos = l.fields.iter().position(|f| matches!(f.k, FK::Payload { .. }));
